@@ -262,7 +262,13 @@ def run(ctx, chk):
         sites = [bb for bb, t, fn in caller.calls() if fn and (mir.callee_name(fn) == callee.path or fn.get('path') == callee.path)]
         for site in sites:
             for tail, head in caller.back_edges():
-                if site in caller.reachable(head) and site not in caller.natural_loop(tail, head):
+                loop_ = caller.natural_loop(tail, head)
+                # (a loop that only computes -- fills a table, parses options -- does not wait; one that sleeps, reads a
+                # mailbox or probes the file system / the network between its rounds does)
+                waits_in_loop = any(fn_ and (mir.callee_name(fn_).split('::')[-1] in WAITS + ('exists', 'try_exists', 'metadata', 'symlink_metadata', 'is_file', 'is_dir') or
+                                             any(common.reaches_call(fb, nb_, lambda n_: n_.split('::')[-1] in WAITS) for nb_ in common.callee_bodies(fb, fn_)))
+                                    for bb_, t_, fn_ in common.user_calls(caller) if bb_ in loop_)
+                if site in caller.reachable(head) and site not in loop_ and waits_in_loop:
                     late.append('%s loops at %s before it calls %s' % (caller.path.split('::')[-1], caller.where(head), callee.path.split('::')[-1]))
             for bb, t, fn in common.user_calls(caller):
                 nm = mir.callee_name(fn) if fn else ''
